@@ -166,13 +166,16 @@ inductive PC where
 
 /-- Controller (`StreamHandle`): `running` = `cancellation_tx.is_some()`, `calling` = inside
 `stop_streaming_loop` after `take()` but not yet parked in `send`, `stopping` = blocked in the
-rendezvous `send`, `stopOk/stopErr` = `stop_streaming_loop` returned. -/
+rendezvous `send`, `stopOk/stopErr` = `stop_streaming_loop` returned, `closed` = `close()` (also
+run by `Drop`) has, after the stop, locked the receive channel — which the loop thread keeps locked
+for its whole life — and closed it. -/
 inductive Ctl where
   | running
   | calling
   | stopping
   | stopOk
   | stopErr
+  | closed
   deriving Repr, DecidableEq, BEq
 
 structure State where
@@ -249,10 +252,11 @@ inductive Step where
   | stopCall
   | stopBlock
   | stopDisc
+  | closeDone
   deriving Repr, DecidableEq, BEq
 
 def Step.isLoop : Step → Bool
-  | .rxRecv | .rxNone | .rxSendBack _ | .rxDrop _ | .rxClose | .stopCall | .stopBlock | .stopDisc => false
+  | .rxRecv | .rxNone | .rxSendBack _ | .rxDrop _ | .rxClose | .stopCall | .stopBlock | .stopDisc | .closeDone => false
   | _ => true
 
 /-- `Vec::resize(max, 0)` -/
@@ -520,6 +524,11 @@ def stepStopBlock (s : State) : Option State :=
 def stepStopDisc (s : State) : Option State :=
   if s.ctl = .stopping ∧ s.pc = .dead then some { s with ctl := .stopErr } else none
 
+/-- `StreamHandle::close` after its `stop_streaming_loop()?` succeeded: `self.inner.lock()` is
+granted only once the loop thread has dropped its guard, i.e. has returned from `run`. -/
+def stepCloseDone (s : State) : Option State :=
+  if s.ctl = .stopOk ∧ s.pc = .exited then some { s with ctl := .closed } else none
+
 def step (s : State) : Step → Option State
   | .checkCancel => stepCheckCancel s
   | .obtainReuse => stepObtainReuse s
@@ -545,13 +554,14 @@ def step (s : State) : Step → Option State
   | .stopCall => stepStopCall s
   | .stopBlock => stepStopBlock s
   | .stopDisc => stepStopDisc s
+  | .closeDone => stepCloseDone s
 
 /-- Candidate steps of a state (parameters enumerated from the state). -/
 def candidates (s : State) : List Step :=
   [.checkCancel, .obtainReuse, .obtainBack, .obtainAlloc, .submitOk,
    .submitFail .io, .submitFail .disconnected, .submitFail .timeout,
    .pollOk, .pollOverflow, .pollFault, .pollPending, .parse, .trySend,
-   .cancelNext, .reapOne, .iterEnd, .exit, .rxRecv, .rxNone, .rxClose, .stopCall, .stopBlock, .stopDisc]
+   .cancelNext, .reapOne, .iterEnd, .exit, .rxRecv, .rxNone, .rxClose, .stopCall, .stopBlock, .stopDisc, .closeDone]
   ++ s.held.map (fun m => .rxSendBack m.buf.id)
   ++ s.held.map (fun m => .rxDrop m.buf.id)
 
